@@ -38,6 +38,7 @@ def gen_case(rng, supervised):
     prior = gen.grid(A.T.dot(A) + np.eye(d), bits=5)
   else:
     prior = prior_kind
+  prior_arg = prior.copy() if isinstance(prior, np.ndarray) else prior      # what the estimator gets
   seed = int(rng.integers(1000))
   mode = str(rng.choice(['run', 'run', 'few', 'prior_feasible']))
   tol = float(rng.choice([1e-3, 1e-5]))
@@ -45,7 +46,7 @@ def gen_case(rng, supervised):
   wkind = str(rng.choice(['none', 'array', 'list']))
   if supervised:
     n_c = int(rng.integers(6, 14))
-    est = gen.LSML_Supervised(tol=tol, max_iter=max_iter, prior=prior, n_constraints=n_c, random_state=seed)
+    est = gen.LSML_Supervised(tol=tol, max_iter=max_iter, prior=prior_arg, n_constraints=n_c, random_state=seed)
     from metric_learn.constraints import Constraints
     cons = Constraints(y).positive_negative_pairs(n_c, same_length=True, random_state=seed)
     quads = X[np.column_stack(cons)]
@@ -55,7 +56,7 @@ def gen_case(rng, supervised):
       idx = idx[:, [0, 0, 2, 3]]          # d(a,a) = 0 <= d(c,d): every constraint holds under any metric
       idx[:, 1] = idx[:, 0]
     quads = X[idx]
-    est = gen.LSML(tol=tol, max_iter=max_iter, prior=prior, random_state=seed)
+    est = gen.LSML(tol=tol, max_iter=max_iter, prior=prior_arg, random_state=seed)
   nq = len(quads)
   w = None
   if wkind != 'none':
@@ -68,12 +69,12 @@ def gen_case(rng, supervised):
       if supervised:
         if w is not None:
           est.set_params(weights=(w.tolist() if wkind == 'list' else w))
-        est.fit(X, y)
+        est.fit(X.copy(), y.copy())
       else:
         if w is None:
-          est.fit(quads)
+          est.fit(quads.copy())
         else:
-          est.fit(quads, weights=(w.tolist() if wkind == 'list' else w))
+          est.fit(quads.copy(), weights=(w.tolist() if wkind == 'list' else w.copy()))
       L = np.asarray(est.components_)
       M = L.T.dot(L)
       M0 = _initialize_metric_mahalanobis(quads, prior, random_state=seed, strict_pd=True, matrix_name='prior')
@@ -88,7 +89,7 @@ def gen_case(rng, supervised):
                 logs=dyv(np.log(np.diag(R))), logs0=dyv(np.log(np.diag(R0))), n_iter=int(est.n_iter_))
       if w is not None and not supervised:
         c = float(rng.choice([0.125, 3.0, 64.0]))
-        e2 = gen.LSML(tol=tol, max_iter=max_iter, prior=prior, random_state=seed).fit(quads, weights=w * c)
+        e2 = gen.LSML(tol=tol, max_iter=max_iter, prior=prior_arg, random_state=seed).fit(quads.copy(), weights=w * c)
         ev['L_scaled'] = dym(e2.components_)
         ev['has_scaled'] = True
     except Exception as e:
